@@ -1,6 +1,260 @@
-(* C03 — theorems being added *)
+(* C03 — Transactions are atomic and always pay their fee.
+   Property theorems only; model: Model/Chain.v (chain/transaction.go: PreExecute, Execute;
+   chain/processor.go: executeTxs; balance handlers) over Model/Tstate.v and Model/Fees.v;
+   proofs: Proofs/TxAtomic_proofs.v (on Proofs/Tstate_proofs.v, ChainBridge_proofs.v, Fees_proofs.v).
+
+   Vocabulary (Proofs/TxAtomic_proofs.v, all executable):
+     deduct t f s        the fee deduction bh.Deduct(sponsor, fee) on view s (None = it returned an error);
+                         execute_tx t u f s is, by definition (C03_not_included_iff / C03_fee_first),
+                         deduct ; checkpoint := OpIndex ; run_actions
+     run_all s acts      every action run in order, without checkpoint or rollback (None = one fails)
+     paid_value t b f    the stored balance after paying f from b (the reference VM deletes a zero balance)
+     price_x_units p u   sum over the 5 dimensions of p_d * u_d   (the formula of Check/C03_check.v)
+     tx_view parent st sk  the view a transaction executes on: new_view over the block diff st, scoped to
+                         its declared keys sk, reading through to the parent values of those keys
+   vis s k is the visible value of key k in view s (Model/Tstate.v, C04). *)
 From stdpp Require Import gmap.
-From HV Require Import Model.Keys Model.Tstate Model.Fees Model.Chain.
-Theorem C03_placeholder_too_late : forall r mk p b, b_too_late b = true -> execute_block r mk p b = inr (clsTooLate, 0%N).
-Proof. intros r mk p b H. unfold execute_block. rewrite H. reflexivity. Qed.
-Print Assumptions C03_placeholder_too_late.
+From Coq Require Import NArith ZArith.
+From HV Require Import Lib.Bytes Lib.U64 Model.Keys Model.Tstate Model.Fees Model.TxStatic Model.Chain
+                       Proofs.Tstate_proofs Proofs.Fees_proofs Proofs.ChainBridge_proofs Proofs.TxAtomic_proofs.
+Local Open Scope N_scope.
+
+(* ---- the fee: exactly unit prices x units ---- *)
+
+(* Whatever Execute returns records the fee and the units it was given ... *)
+Theorem C03_result_records_fee_units : forall t u f s s' r,
+  execute_tx t u f s = Some (s', r) -> res_fee r = f /\ res_units r = u.
+Proof. exact execute_tx_fee_units. Qed.
+Print Assumptions C03_result_records_fee_units.
+
+(* ... and for every included transaction (a task of executeTxs that returned a result) that fee is
+   Fees.fee of the block's fee manager and the transaction's units: sum_d price_d * units_d, computed
+   with checked arithmetic (so it fits uint64), and the sponsor's balance could pay it. *)
+Theorem C03_fee_exact : forall r fm parent ts st t sk u st' res,
+  run_tx r fm parent ts st t sk u = (st', inl res) ->
+  fee fm u = Some (res_fee res) /\ res_units res = u
+  /\ res_fee res = price_x_units (unit_prices fm) u /\ res_fee res <= MaxU64
+  /\ exists b, get_balance (tx_view parent st sk) (t_sponsor_key t) = Some b /\ res_fee res <= b.
+Proof. exact run_tx_fee. Qed.
+Print Assumptions C03_fee_exact.
+
+(* Block level: an accepted block has exactly one result per transaction, in order; the result's
+   units are Transaction.Units of that transaction and its fee is the block's unit prices (the
+   prices the block outputs) times those units. *)
+Theorem C03_block_fee_exact : forall r mk p b o, execute_block r mk p b = inl o ->
+  Forall2 (fun t res => exists sk, state_keys t = Some sk /\ units r t sk = Some (res_units res)
+       /\ fee (o_fee o) (res_units res) = Some (res_fee res)
+       /\ res_fee res = price_x_units (o_prices o) (res_units res) /\ res_fee res <= MaxU64)
+    (b_txs b) (o_results o).
+Proof. exact execute_block_fees. Qed.
+Print Assumptions C03_block_fee_exact.
+
+(* ---- the fee is charged first ---- *)
+
+(* Execute = deduct ; checkpoint ; action loop.  When it returns a result, the sponsor key held a
+   well-formed 8-byte balance >= f; the actions start (run_actions, checkpoint = OpIndex after the
+   deduction) from the view s1 = deduct t f s, in which the sponsor key holds balance - f (deleted
+   at zero by the reference VM's handler), every other key is as in s, and the balance handler
+   reads balance - f back. *)
+Theorem C03_fee_first : forall t u f s s' r, execute_tx t u f s = Some (s', r) ->
+  exists v s1,
+    get s (t_sponsor_key t) = inl v /\ length v = 8%nat /\ f <= be_dec v
+    /\ deduct t f s = Some s1
+    /\ vis s1 (t_sponsor_key t) = paid_value t (be_dec v) f
+    /\ (forall k, t_sponsor_key t <> k -> vis s1 k = vis s k)
+    /\ (be_dec v <= MaxU64 -> get_balance s1 (t_sponsor_key t) = Some (be_dec v - f))
+    /\ run_actions s1 (op_index s1) (t_actions t) [] = (s', res_success r, res_err r, res_outputs r)
+    /\ res_fee r = f /\ res_units r = u.
+Proof. exact execute_tx_fee_charged. Qed.
+Print Assumptions C03_fee_first.
+
+(* If no action writes the sponsor's balance key (no put / delete / transfer from or to it), the
+   sponsor pays exactly the fee: at the end of Execute its visible balance is the balance before
+   minus f, whether the actions succeeded or failed. *)
+Theorem C03_sponsor_pays_exactly : forall t u f s s' r,
+  view_ok s -> execute_tx t u f s = Some (s', r) ->
+  no_action_writes (t_sponsor_key t) (t_actions t) ->
+  exists v, get s (t_sponsor_key t) = inl v /\ length v = 8%nat /\ f <= be_dec v
+    /\ vis s' (t_sponsor_key t) = paid_value t (be_dec v) f
+    /\ (be_dec v <= MaxU64 -> get_balance s' (t_sponsor_key t) = Some (be_dec v - f)).
+Proof. exact execute_tx_sponsor_pays_exactly. Qed.
+Print Assumptions C03_sponsor_pays_exactly.
+
+(* Execute returns an error (the transaction is not included, nothing is committed) exactly when
+   the deduction fails; in particular when the sponsor's balance is below the fee. *)
+Theorem C03_not_included_iff : forall t u f s,
+  (is_Some (execute_tx t u f s) <-> is_Some (deduct t f s))
+  /\ (forall b, get_balance s (t_sponsor_key t) = Some b -> b < f -> execute_tx t u f s = None).
+Proof.
+  intros t u f s. split; [apply execute_tx_included_iff|].
+  intros b Hb Hlt. apply execute_tx_deduct_fails. eapply deduct_insufficient; eassumption.
+Qed.
+Print Assumptions C03_not_included_iff.
+
+(* A transaction whose sponsor cannot pay prices x units is rejected by the task (the block is
+   invalid) and the block diff is left as it was; so is any rejected transaction. *)
+Theorem C03_cannot_pay_not_included : forall r fm parent ts st t sk u,
+  (forall f b, fee fm u = Some f -> get_balance (tx_view parent st sk) (t_sponsor_key t) = Some b -> b < f ->
+     exists e, run_tx r fm parent ts st t sk u = (st, inr e) /\ e <> 0)
+  /\ (forall st' e, run_tx r fm parent ts st t sk u = (st', inr e) -> st' = st /\ e <> 0).
+Proof.
+  intros r fm parent ts st t sk u. split.
+  - intros f b. apply run_tx_poor.
+  - intros st' e. apply run_tx_rejected.
+Qed.
+Print Assumptions C03_cannot_pay_not_included.
+
+(* ---- atomicity ---- *)
+
+(* Success: every action ran, in order, from the post-fee view; there is one output per action;
+   the final view is the one reached by running all of them (no rollback). *)
+Theorem C03_atomic_success : forall t u f s s' r,
+  execute_tx t u f s = Some (s', r) -> res_success r = true ->
+  exists s1, deduct t f s = Some s1
+    /\ run_all s1 (t_actions t) = Some (s', res_outputs r)
+    /\ length (res_outputs r) = length (t_actions t)
+    /\ res_err r = 0 /\ res_fee r = f /\ res_units r = u.
+Proof. exact execute_tx_success. Qed.
+Print Assumptions C03_atomic_success.
+
+(* The result says success exactly when every action succeeds from the post-fee view. *)
+Theorem C03_success_iff_all_actions_succeed : forall t u f s s' r s1,
+  execute_tx t u f s = Some (s', r) -> deduct t f s = Some s1 ->
+  (res_success r = true <-> is_Some (run_all s1 (t_actions t))).
+Proof. exact execute_tx_success_iff. Qed.
+Print Assumptions C03_success_iff_all_actions_succeed.
+
+(* Failure: for EVERY key the visible value is the one of the post-fee view (the rollback theorem
+   of C04 at the checkpoint taken after the deduction), and so are the pending map, the write
+   counters, the undo log and the op index: no effect of any action survives, whatever reads,
+   writes, deletes (of the same or different keys, the sponsor key included) the actions made
+   before one failed.  The fee and units are as in the success case; the outputs are those of the
+   actions that ran to completion before the failing one (Go: actionOutputs at the time of the
+   error), the error class is the failing action's. *)
+Theorem C03_atomic_failure : forall t u f s s' r,
+  view_ok s -> execute_tx t u f s = Some (s', r) -> res_success r = false ->
+  exists s1, deduct t f s = Some s1
+    /\ (forall k, vis s' k = vis s1 k)
+    /\ pending s' = pending s1 /\ writes s' = writes s1 /\ ops s' = ops s1 /\ op_index s' = op_index s1
+    /\ res_fee r = f /\ res_units r = u
+    /\ exists pre a post sp sq e,
+         t_actions t = pre ++ a :: post
+         /\ run_all s1 pre = Some (sp, res_outputs r)
+         /\ run_ops sp (a_ops a) [] = (sq, inr e)
+         /\ res_err r = aerr_class e
+         /\ length (res_outputs r) = length pre
+         /\ s' = rollback sq (op_index s1).
+Proof. exact execute_tx_failure. Qed.
+Print Assumptions C03_atomic_failure.
+
+(* At the level of the block: a failed transaction changes the block diff at no key other than
+   its sponsor's balance key, where the value visible to later transactions is balance - fee. *)
+Theorem C03_failed_tx_only_pays : forall r fm parent ts st t sk u st' res,
+  run_tx r fm parent ts st t sk u = (st', inl res) -> res_success res = false ->
+  (forall k, t_sponsor_key t <> k -> ts_changed st' !! k = ts_changed st !! k)
+  /\ exists v, under_of st (fetch parent sk) (t_sponsor_key t) = Some v /\ length v = 8%nat
+       /\ res_fee res <= be_dec v
+       /\ under_of st' (fetch parent sk) (t_sponsor_key t) = paid_value t (be_dec v) (res_fee res).
+Proof. exact run_tx_failure_diff. Qed.
+Print Assumptions C03_failed_tx_only_pays.
+
+(* What an included transaction publishes is exactly its final view: after the commit, the value
+   under every key is the one visible at the end of Execute (hence, by the two theorems above, the
+   effects of all actions on top of the fee, or the fee alone). *)
+Theorem C03_commit_publishes_final_view : forall r fm parent ts st t sk u st' res,
+  run_tx r fm parent ts st t sk u = (st', inl res) ->
+  exists f s', execute_tx t u f (tx_view parent st sk) = Some (s', res)
+    /\ forall k, under_of st' (fetch parent sk) k = vis s' k.
+Proof. exact run_tx_commit_vis. Qed.
+Print Assumptions C03_commit_publishes_final_view.
+
+(* ---- non-vacuity (evaluated in the model) ---- *)
+Definition ex_sp : key := [115; 0; 1].
+Definition ex_k : key := [97; 0; 1].
+Definition ex_q : key := [98; 0; 1].
+Definition ex_decl : list (key * perm) := [(ex_k, 7); (ex_q, 7)].
+Definition ex_a1 : action := mkAction 1 ex_decl [OPut ex_k [5]; OGet ex_k; ODel ex_q] (-1) (-1).
+Definition ex_a2_bad : action := mkAction 1 ex_decl [ODel ex_k; OPut ex_q [1]; OGet ex_q; OFail] (-1) (-1).
+Definition ex_a2_good : action := mkAction 1 ex_decl [ODel ex_k; OPut ex_q [1]; OGet ex_q] (-1) (-1).
+Definition ex_tx (morpheus : bool) (acts : list action) : tx :=
+  mkTx 1067000 true 1000 ex_sp true 1 (-1) (-1) 100 morpheus acts.
+Definition ex_sk : gmap key perm := default ∅ (state_keys (ex_tx false [ex_a1; ex_a2_bad])).
+Definition ex_parent : gmap key val := {[ex_sp := be64 1000; ex_q := [9]]}.
+Definition ex_view : view := tx_view ex_parent ts_new ex_sk.
+Definition ex_units : dims := [100; 4; 21; 75; 39].
+Definition ex_rules : rules :=
+  mkRules 100 750 [1;1;1;1;1] [48;48;48;48;48] [20000000;1000;1000;1000;1000]
+          [1800000;2000;2000;2000;2000] 60000 16 1 5 2 20 5 10 3.
+Definition ex_fm : manager := mkFee 1058 [1; 2; 1; 3; 1] [] [0;0;0;0;0].
+Definition ex_block (txs : list tx) : block := mkBlock 1060318 48 true false false None txs.
+Definition ex_meta : meta_keys := mkMeta [0;0;1] [1;0;1] [2;0;8].
+Definition ex_pstate : parent_state := mkParent ex_parent (Some 47) 1059318 ex_fm.
+
+(* two script actions, the second fails after deleting what the first wrote and overwriting a
+   parent key: the result is a failure carrying the first action's output and the full fee, and the
+   view shows the parent values again, minus the fee *)
+Example C03_failure_example :
+  view_ok ex_view /\
+  match execute_tx (ex_tx false [ex_a1; ex_a2_bad]) ex_units 393 ex_view with
+  | Some (s', r) =>
+      res_success r = false /\ res_err r = 1 /\ res_fee r = 393 /\ res_outputs r = [[1; 1; 5]]
+      /\ vis s' ex_k = None /\ vis s' ex_q = Some [9] /\ vis s' ex_sp = Some (be64 607)
+      /\ map_to_list (pending s') = [(ex_sp, Some (be64 607))]
+  | None => False
+  end.
+Proof. split; [apply tx_view_ok|]. vm_compute. repeat split; reflexivity. Qed.
+
+Example C03_no_action_writes_example :
+  no_action_writes ex_sp (t_actions (ex_tx false [ex_a1; ex_a2_bad])).
+Proof. repeat constructor; intros H; cbn in H; try contradiction; discriminate H. Qed.
+
+(* the same transaction with a second action that succeeds: both outputs, all effects *)
+Example C03_success_example :
+  match execute_tx (ex_tx false [ex_a1; ex_a2_good]) ex_units 393 ex_view with
+  | Some (s', r) =>
+      res_success r = true /\ res_fee r = 393 /\ res_outputs r = [[1; 1; 5]; [1; 1; 1]]
+      /\ vis s' ex_k = None /\ vis s' ex_q = Some [1] /\ vis s' ex_sp = Some (be64 607)
+  | None => False
+  end.
+Proof. vm_compute. repeat split; reflexivity. Qed.
+
+(* the reference VM's handler: paying the whole balance deletes the account; one unit more and
+   Execute returns an error *)
+Example C03_fee_boundary_example :
+  match execute_tx (ex_tx true [ex_a1; ex_a2_bad]) ex_units 1000 ex_view with
+  | Some (s', r) => res_success r = false /\ res_fee r = 1000 /\ vis s' ex_sp = None /\ vis s' ex_q = Some [9]
+  | None => False
+  end
+  /\ execute_tx (ex_tx true [ex_a1; ex_a2_bad]) ex_units 1001 ex_view = None
+  /\ execute_tx (ex_tx false [ex_a1; ex_a2_bad]) ex_units 1001 ex_view = None.
+Proof. vm_compute. repeat split; reflexivity. Qed.
+
+(* the hypotheses of the run_tx / execute_block theorems: an accepted block with a failing and a
+   succeeding transaction; fees are prices x units = 314 under the block's prices [1;1;1;2;1], and
+   the failed transaction's only trace in the diff is its sponsor's balance *)
+Example C03_block_example :
+  match execute_block ex_rules ex_meta ex_pstate
+          (ex_block [ex_tx false [ex_a1; ex_a2_bad]; ex_tx true [ex_a1; ex_a2_good]]) with
+  | inl o =>
+      map res_success (o_results o) = [false; true] /\ map res_fee (o_results o) = [314; 314]
+      /\ o_prices o = [1; 1; 1; 2; 1] /\ map res_units (o_results o) = [ex_units; ex_units]
+      /\ map_to_list (o_diff o) = [(ex_q, Some [1]); (ex_sp, Some (be64 372))]
+  | inr _ => False
+  end.
+Proof. vm_compute. repeat split; reflexivity. Qed.
+
+Example C03_run_tx_example :
+  match run_tx ex_rules ex_fm ex_parent 1060318 ts_new (ex_tx false [ex_a1; ex_a2_bad]) ex_sk ex_units with
+  | (st', inl res) =>
+      res_success res = false /\ res_fee res = 393 /\ map_to_list (ts_changed st') = [(ex_sp, Some (be64 607))]
+  | (_, inr _) => False
+  end.
+Proof. vm_compute. repeat split; reflexivity. Qed.
+
+(* a sponsor that cannot pay: rejected, nothing committed *)
+Example C03_cannot_pay_example :
+  fee ex_fm [2000; 4; 21; 75; 39] = Some 2293
+  /\ get_balance ex_view ex_sp = Some 1000
+  /\ run_tx ex_rules ex_fm ex_parent 1060318 ts_new (ex_tx false [ex_a1; ex_a2_bad]) ex_sk [2000; 4; 21; 75; 39]
+     = (ts_new, inr subInsufficient).
+Proof. vm_compute. repeat split; reflexivity. Qed.
